@@ -597,6 +597,45 @@ pub fn gen_deleg(files: &BTreeMap<String, syn::File>, out: &mut String) {
     writeln!(out, "(* impls.rs, impl_zeroize.rs, lib.rs :: the bodies of the trait impls for GenericArray that delegate to the slice *)\nDefinition gen_delegations : list (string * deleg) :=\n  [{}].", rows.join(";\n   ")).unwrap();
 }
 
+// ------------------------------------------------------------------ impl_tuple! bodies (T1)
+
+/// the two `fn from(..) -> Self { .. }` bodies inside macro_rules! impl_tuple, as normalised token text
+pub fn gen_tuple_bodies(files: &BTreeMap<String, syn::File>, out: &mut String) {
+    use proc_macro2::{Delimiter, TokenStream, TokenTree};
+    fn walk(ts: TokenStream, found: &mut Vec<String>) {
+        let t: Vec<TokenTree> = ts.into_iter().collect();
+        for i in 0..t.len() {
+            if let TokenTree::Group(g) = &t[i] {
+                let is_body = i >= 3
+                    && matches!(&t[i - 1], TokenTree::Ident(id) if id == "Self")
+                    && matches!(&t[i - 2], TokenTree::Punct(p) if p.as_char() == '>')
+                    && matches!(&t[i - 3], TokenTree::Punct(p) if p.as_char() == '-')
+                    && g.delimiter() == Delimiter::Brace;
+                if is_body {
+                    found.push(g.stream().to_string().split_whitespace().collect::<Vec<_>>().join(" "));
+                } else {
+                    walk(g.stream(), found);
+                }
+            }
+        }
+    }
+    let Some(file) = files.get("impls.rs") else { return };
+    let mut found = vec![];
+    for it in &file.items {
+        if let Item::Macro(m) = it {
+            if m.mac.path.is_ident("macro_rules") && m.ident.as_ref().map(|i| i == "impl_tuple").unwrap_or(false) {
+                walk(m.mac.tokens.clone(), &mut found);
+            }
+        }
+    }
+    if found.len() != 2 {
+        println!("ERROR GenSigs.v tuple_bodies: expected the two `fn from(..) -> Self` bodies of impl_tuple!, found {}", found.len());
+        return;
+    }
+    let esc = |s: &str| s.replace('"', "\"\"");
+    writeln!(out, "\n(* impls.rs :: macro_rules! impl_tuple: the bodies of From<tuple> for GenericArray and of\n   From<GenericArray> for the tuple, as normalised token text *)\nDefinition gen_tuple_bodies : String.string * String.string :=\n  (\"{}\", \"{}\")%string.", esc(&found[0]), esc(&found[1])).unwrap();
+}
+
 // ------------------------------------------------------------------ whole-body reinterpretations (T1)
 
 /// every function of lib.rs / impls.rs / sequence.rs whose whole body is one reinterpretation of its
